@@ -34,6 +34,7 @@ type proj struct {
 type label struct {
 	Name string
 	Args []int
+	Flag bool // first boolean argument (StLock: a call that cannot succeed)
 }
 
 func (l label) String() string {
@@ -54,6 +55,9 @@ func mkLabel(act []interface{}) label {
 		if f, ok := a.(float64); ok {
 			l.Args = append(l.Args, int(f))
 		}
+		if b, ok := a.(bool); ok && b {
+			l.Flag = true
+		}
 	}
 	switch l.Name { // arguments that are results, not identities
 	case "SCloseChan", "ShCapture":
@@ -62,7 +66,7 @@ func mkLabel(act []interface{}) label {
 	return l
 }
 
-func lab(name string, args ...int) label { return label{name, args} }
+func lab(name string, args ...int) label { return label{Name: name, Args: args} }
 
 // controller forces one plan onto one World.
 type controller struct {
@@ -102,9 +106,17 @@ func (c *controller) observe() []label {
 		case "start.refused":
 			out = append(out, lab("StRefused", e.P), lab("StErrReturn", e.P))
 		case "serve.returned":
-			if e.Res != "already" {
+			switch e.Res {
+			case "already":
+			case "fail":
+				out = append(out, lab("StFailed", e.P), lab("StErrReturn", e.P))
+			default:
 				out = append(out, lab("SReturn", e.P))
 			}
+		case "h.break":
+			out = append(out, lab("HBreak"))
+		case "h.fix":
+			out = append(out, lab("HFix"))
 		case "s.isstarted":
 			if c.errNext[e.P] {
 				c.errNext[e.P] = false
@@ -273,10 +285,10 @@ func (c *controller) perform(l label) (fiat []label, ok bool) {
 		// The call is made but held before the library is entered: the specification's StLock only
 		// takes the lock, and the real critical section (lock, check, init, started, unlock) runs as
 		// one piece when the plan reaches StStarted / StRefused.
-		c.w.Start()
+		c.w.Start(l.Flag)
 		c.quiet()
 		return []label{l}, c.parkedAt(s(0), "call.start")
-	case "StStarted", "StRefused":
+	case "StStarted", "StRefused", "StFailed":
 		return nil, rel(s(0), "", "call.start")
 	case "ShBegin", "ShRefused":
 		if c.w.nH+1 != a(0) {
@@ -360,6 +372,12 @@ func (c *controller) perform(l label) (fiat []label, ok bool) {
 		return nil, true
 	case "CSendPkt":
 		return nil, c.w.SendPkt() != 0
+	case "HBreak":
+		c.w.BreakConfig()
+		return nil, true
+	case "HFix":
+		c.w.FixConfig()
+		return nil, true
 	case "HSetListener":
 		if c.w.nL+1 != a(0) {
 			return nil, false
@@ -376,7 +394,7 @@ func (c *controller) xlate(l label) label {
 	if len(l.Args) == 0 {
 		return l
 	}
-	out := label{l.Name, append([]int(nil), l.Args...)}
+	out := label{Name: l.Name, Args: append([]int(nil), l.Args...), Flag: l.Flag}
 	switch {
 	case strings.HasPrefix(l.Name, "Sh"):
 		if _, ok := c.hmap[l.Args[0]]; !ok {
